@@ -84,6 +84,9 @@ type NodeOpts struct {
 	NewAccGas    int64   // new_account_resource_amount
 	NoLog        bool    // do not keep a write log (replicas)
 	GasPrice     [4]int64
+	// UtxoCache > 0: capacity of the state machine's output / balance / previous-key caches (ledger.yaml utxo.cachesize,
+	// default 1000 - never reached by a generated history); 1-4 makes every history run at and beyond capacity
+	UtxoCache int `json:",omitempty"`
 }
 
 // DefaultOpts gives a small chain funded for the first 5 ring keys.
@@ -247,6 +250,11 @@ func (n *Node) openState() error {
 	sctx, err := sctxpkg.NewStateCtx(n.Conf, BCName, n.Ledger, Crypt)
 	if err != nil {
 		return err
+	}
+	if n.Opts.UtxoCache > 0 {
+		cfgCopy := *sctx.LedgerCfg
+		cfgCopy.Utxo.CacheSize = n.Opts.UtxoCache
+		sctx.LedgerCfg = &cfgCopy
 	}
 	st, err := state.NewState(sctx)
 	if err != nil {
